@@ -26,7 +26,7 @@ pub fn property() -> Property {
             single_shard: false, supplementary: false,
             run: |cfg| run_part(cfg, db_strategy(), |r| build_db(r), check_db),
             replay: |v| replay_case::<Db, _>(v, check_db),
-        }],
+        }, crate::props::fuzz_corpus_part!("pgn_stream")],
     }
 }
 
